@@ -15,7 +15,8 @@ RULE = (
 )
 REQUIRED = ["summary_checked", "linkage_deficiencies_checked", "weakly_reversible_true",
             "weakly_reversible_false", "deficiency_positive", "multi_linkage_networks",
-            "zero_complex_networks", "textbook_checked", "graph_tagged_by_bipartite_only", "graph_tagged_by_kind_only"]
+            "zero_complex_networks", "textbook_checked", "graph_tagged_by_bipartite_only", "graph_tagged_by_kind_only",
+            "alt_call_order_checked", "analyzer_reused_after_edit_checked"]
 ASSUMPTIONS = [
     "per-class deficiency compared with the docstring definition n_l - 1 - s_l (exact rank of the class's reaction vectors)",
     "linkage-class list compared as a multiset (class order is not part of the statement)",
@@ -137,6 +138,45 @@ def check_network(ctx, net, tag="", via_graph=False, pinned=None):
             ctx.violation("linkage-deficiency-sum", wit, f"linkage deficiencies {ld} sum to more than the deficiency {o['deficiency']}")
         elif sorted(ld) != o["linkage_deficiencies"] or d.get("linkage_deficiencies") != ld:
             ctx.violation("linkage-deficiency-values", wit, f"linkage deficiencies {sorted(ld)} != definition {o['linkage_deficiencies']}")
+    # other legal call orders on one analyzer (the diagnostic between the two structural steps; summary computed twice)
+    if not via_graph and len(net) >= 2 and (len(net) + o["n_complexes"]) % 2 == 0:
+        an2 = DeficiencyAnalyzer(H)
+        try:
+            an2.compute_summary()
+            an2.nondegeneracy_test()
+            an2.compute_summary() if len(net) % 3 == 0 else None
+            an2.compute_linkage_deficiencies()
+            ld2, sm2 = an2.linkage_deficiencies, an2.summary
+        except Exception as e:
+            ld2, sm2 = None, None
+            ctx.count("alt_call_order_raised/" + type(e).__name__)
+        if sm2 is not None:
+            ctx.count("alt_call_order_checked")
+            if ld2 is None or sorted(ld2) != o["linkage_deficiencies"] or sm2.deficiency != o["deficiency"] or sm2.n_complexes != o["n_complexes"]:
+                ctx.violation("depends-on-call-order", wit,
+                              f"compute_summary -> nondegeneracy_test -> compute_linkage_deficiencies gives linkage deficiencies {ld2} / deficiency {sm2.deficiency}; "
+                              f"definition {o['linkage_deficiencies']} / {o['deficiency']}")
+        # the same analyzer after the network was edited in place (reaction replaced under its id: sizes unchanged)
+        eid = sorted(H.edges)[ctx.rng.randrange(len(H.edges))]
+        pos = list(H.edges).index(eid)
+        rule_, a_, b_ = net[pos]
+        a2 = tuple((s_, c_ + 1) for s_, c_ in a_) if a_ else (("A", 1),)
+        if dict(a2) or dict(b_):
+            an3 = DeficiencyAnalyzer(H).compute_summary()
+            H.remove_rxn(eid)
+            H.add_rxn(dict(a2), dict(b_), rule=rule_, edge_id=eid)
+            # the oracle reads the network back from the store as it is now
+            o2 = oracle([((e_.rule), tuple(sorted(e_.reactants.items())), tuple(sorted(e_.products.items()))) for e_ in H.edges.values()])
+            an3.compute_summary()
+            an3.compute_linkage_deficiencies()
+            ctx.count("analyzer_reused_after_edit_checked")
+            sm3 = an3.summary
+            bad = [k for k in ("n_species", "n_reactions", "n_complexes", "n_linkage_classes", "stoich_rank", "deficiency", "weakly_reversible")
+                   if getattr(sm3, k) != o2[k]]
+            if bad or sorted(an3.linkage_deficiencies or []) != o2["linkage_deficiencies"]:
+                ctx.violation("stale-after-edit", {**wit, "edited": eid, "new_reactants": a2},
+                              f"the same analyzer, recomputed after reaction {eid} was replaced in place, reports {[(k, getattr(sm3, k)) for k in bad]} "
+                              f"/ linkage deficiencies {an3.linkage_deficiencies}; the network as it is now has {[(k, o2[k]) for k in bad]} / {o2['linkage_deficiencies']}")
     ctx.count("weakly_reversible_true" if o["weakly_reversible"] else "weakly_reversible_false")
     if o["deficiency"] > 0:
         ctx.count("deficiency_positive")
